@@ -218,7 +218,7 @@ def run(ctx, rep):
                         rep.bad('D4.container', f, stmt_of(node), f'`{p}` is documented as `{t}` but used as a truth value: '
                                 'bool() of a Series/array raises (or is ambiguous)', construct=f'truth value of {p}: {short(par, 60)}')
     rep.ok('D4.container', 'package', None, f'{n} array/Series/DataFrame-typed parameters scanned', construct='typed parameters')
-    rep.floor('D4.container', 'documented array-like parameters', n, 40)
+    rep.floor('D4.container', 'documented array-like parameters', n, 10)
     # D5
     sm = get_alias(ctx).summaries[fn.qualname]
     muts = sm.mut_params.get('conditions', [])
